@@ -117,3 +117,32 @@ def field_source(m, attr):
 
 def is_handle_op(node, handle):
     return isinstance(node, ast.Call) and isinstance(node.func, ast.Attribute) and norm(node.func.value) == handle and node.func.attr in ("tell", "readline", "read", "seek", "write", "__next__", "readlines")
+
+
+def orientation_counts_rule(ctx, pa, rule):
+    """Both decisions of the key extraction (reverse anchoring, inversion flag) count orientations: every
+    `.count('>')` / `.count('<')` must be taken on the list of *scaffold* orientations — the list that receives the
+    orientation sign under the NO == 0 guard — not on the raw path (where every node and every sign counts)."""
+    from ..core import local_defs
+    from .common import key_of
+
+    ld = local_defs(pa.node)
+    recvs = {}
+    for c in walk_own(pa.node):
+        if isinstance(c, ast.Call) and isinstance(c.func, ast.Attribute) and c.func.attr == "count" and c.args and const_value(c.args[0]) in (">", "<"):
+            r = c.func.value
+            # through aliases
+            for _ in range(3):
+                if isinstance(r, ast.Name) and len(ld.get(r.id, [])) == 1 and isinstance(ld[r.id][0], ast.Name):
+                    r = ld[r.id][0]
+            recvs.setdefault(norm(r), []).append(c)
+    if not recvs:
+        raise AnalysisError(rule, pa.where(), "no orientation counts in the key extraction")
+    appended = {}
+    for c in walk_own(pa.node):
+        if isinstance(c, ast.Call) and isinstance(c.func, ast.Attribute) and c.func.attr == "append" and isinstance(c.func.value, ast.Name):
+            appended.setdefault(c.func.value.id, []).append(c)
+    for r, calls in sorted(recvs.items()):
+        ok = r in appended
+        ctx.check(ok, rule, pa.where(calls[0]), f"orientation counts are taken on the list of scaffold orientations (filled under the NO == 0 guard), not on `{r}`" if not ok else "orientation counts are taken on the list of scaffold orientations", key_of(pa, f"count-receiver:{r}"), receiver=r, sites=len(calls))
+    ctx.check(len(recvs) == 1, rule, pa.where(), "the anchoring decision and the inversion flag count the same list", key_of(pa, f"count-receivers:{sorted(recvs)}"), receivers=sorted(recvs))
